@@ -199,7 +199,7 @@ def str_builtin(o, name, recv, args):
     """what the string methods MEAN (README, compiler/src/tests/builtins.rs; C14's oracle): offsets and `len` count bytes of the UTF-8
     text, `chars` / `reverse` work on characters; index arguments are forked over the positions of the concrete string.
     substring(b, t) / delete(b, t): the bytes [b, t), defined for 0 <= b <= t <= len; insert(x, i): 0 <= i <= len; split(m): [s[..m], s[m..]]
-    with m capped at len.  The offset-taking methods are used on ASCII text only (on multi-byte text their meaning is outside C14)."""
+    for 0 <= m <= len, otherwise [s, ""] (total).  The offset-taking methods are used on ASCII text only (on multi-byte text their meaning is outside C14)."""
     if not (isinstance(recv, tuple) and recv[0] == "str"):
         raise Unsupported("string built-in on a non-string")
     t = recv[1]
@@ -236,11 +236,7 @@ def str_builtin(o, name, recv, args):
     if name == "split":
         m = concretize(o, args[0], 0, nb)
         if m is None:
-            if is_sym(args[0]) and not o.branch(args[0] > z3.BitVecVal(nb, 32)):
-                raise Fail("str", "negative split position")
-            if not is_sym(args[0]) and args[0] < 0:
-                raise Fail("str", "negative split position")
-            m = nb
+            m = nb          # total: any position outside 0..len (negative ones included) yields [s, ""] (C14's oracle, strkernels.py)
         return ListRef([("str", t[:m]), ("str", t[m:])])
     raise Unsupported("string built-in " + name)
 
